@@ -151,7 +151,7 @@ def gen_get(rng, widen):
     b = rng.weighted(
         [(None, 2), (N, 1), (1, 1), (rng.randint(1, N), 4), (N + rng.randint(1, 5), 1), (max(1, N - 1), 1)]
     )
-    return {"kind": "get", "T": T, "n": n, "batch": b, "dict": rng.chance(0.4), "passes": rng.randint(1, 3),
+    return {"kind": "get", "T": T, "n": n, "batch": b, "dict": rng.chance(0.4), "passes": rng.randint(1, 3), "overlap": rng.chance(0.35),
             "npseed": rng.randint(0, 2**31 - 1), "prelude": gen_prelude(rng, T, n)}
 
 
@@ -417,9 +417,26 @@ def run_get(ctx, case):
     np.random.permutation = spy
     passes = []
     try:
-        for _ in range(case["passes"]):
+        # passes are lazy generators: with "overlap" the first pass is started, one minibatch is taken, then the other
+        # passes run to completion, then the first pass is finished — every pass must still be a partition (C05-j)
+        gens = [buf.get(case["batch"]) for _ in range(case["passes"])]
+        order = []   # (pass index, sample)
+        if case.get("overlap") and case["passes"] >= 2:
+            first = next(gens[0], None)
+            if first is not None:
+                order.append((0, first))
+            for pi in range(1, case["passes"]):
+                order += [(pi, smp) for smp in gens[pi]]
+            order += [(0, smp) for smp in gens[0]]
+        else:
+            for pi in range(case["passes"]):
+                order += [(pi, smp) for smp in gens[pi]]
+        per_pass = [[] for _ in range(case["passes"])]
+        for pi, smp in order:
+            per_pass[pi].append(smp)
+        for pi in range(case["passes"]):
             batches = []
-            for s in buf.get(case["batch"]):
+            for s in per_pass[pi]:
                 B = len(s.actions)
                 rows = []
                 for i in range(B):
